@@ -1443,6 +1443,44 @@ theorem foldB_offsets (e : Env) (ids : List Nat) (w : World) :
     | none => rfl
     | some w1 => exact liquidateBorrowV2_offsets e id w w1 hfv
 
+/-- a generation-2 borrow step touches neither the vault list nor the vault counter (`LengthOfVault`) -/
+theorem liquidateBorrowV2_vaultSide (e : Env) (id : Nat) (w w' : World) (h : liquidateBorrowV2 e id w = some w') :
+    w'.vaults = w.vaults ∧ w'.counter = w.counter ∧ w'.vaultBal = w.vaultBal := by
+  cases liquidateBorrowV2_cases e id w w' h with
+  | inl h => rw [h]; exact ⟨rfl, rfl, rfl⟩
+  | inr h => obtain ⟨b, r, _, _, _, _, _, _, _, _, _, hw⟩ := h; rw [hw]; exact ⟨rfl, rfl, rfl⟩
+
+theorem foldB_vaultSide (e : Env) (ids : List Nat) (w : World) :
+    let w' := ids.foldl (fun acc id => applyIfNoError (liquidateBorrowV2 e id) acc) w
+    w'.vaults = w.vaults ∧ w'.counter = w.counter ∧ w'.vaultBal = w.vaultBal := by
+  induction ids generalizing w with
+  | nil => exact ⟨rfl, rfl, rfl⟩
+  | cons id rest ih =>
+    simp only [List.foldl_cons]
+    have r := ih (applyIfNoError (liquidateBorrowV2 e id) w)
+    have st : (applyIfNoError (liquidateBorrowV2 e id) w).vaults = w.vaults ∧ (applyIfNoError (liquidateBorrowV2 e id) w).counter = w.counter ∧
+        (applyIfNoError (liquidateBorrowV2 e id) w).vaultBal = w.vaultBal := by
+      unfold applyIfNoError
+      cases hfv : liquidateBorrowV2 e id w with
+      | none => exact ⟨rfl, rfl, rfl⟩
+      | some w1 => exact liquidateBorrowV2_vaultSide e id w w1 hfv
+    exact ⟨by rw [r.1, st.1], by rw [r.2.1, st.2.1], by rw [r.2.2, st.2.2]⟩
+
+/-- the whole generation-2 borrow pass: vault list, vault counter and vault custody as before; only its OWN offset (key 1) moves -/
+theorem borrowPassV2_vaultSide (e : Env) (batch : Nat) (w w' : World) (h : borrowPassV2 e batch w = .ok w') :
+    w'.vaults = w.vaults ∧ w'.counter = w.counter ∧ w'.vaultBal = w.vaultBal ∧ w'.offsets.get? 0 = w.offsets.get? 0 := by
+  unfold borrowPassV2 at h
+  simp only at h
+  split at h
+  · cases h
+  · rename_i sl _
+    simp only [Outcome.ok.injEq] at h
+    subst h
+    have r := foldB_vaultSide e sl w
+    refine ⟨r.1, r.2.1, r.2.2, ?_⟩
+    simp only
+    rw [Offsets.get?_set_other _ 1 0 _ (by decide), foldB_offsets]
+
 /-- the vault offset after a generation-2 block is the vault pass's own range end: the borrow pass cannot move it -/
 theorem blockV2_vault_offset (e : Env) (batch : Nat) (w w' : World) (h : blockV2 e batch w = .ok w') :
     w'.offsets.get? 0 =
